@@ -17,11 +17,14 @@ pub open spec fn grow_ok<P: Prefix, T>(m0: PrefixMap<P, T>, m1: PrefixMap<P, T>)
 pub proof fn lemma_insert_reached<P: Prefix, T>(m0: PrefixMap<P, T>, m1: PrefixMap<P, T>, idx: int, p: P, v: T)
     requires
         m0.wf(), m0.live().contains(idx), kb(m0.tab(), idx) =~= p.bits(),
-        m1.free@ == m0.free@, m1.tab().len() == m0.tab().len(),
-        frame_nodes(m0.tab(), m1.tab(), idx, idx, idx),
-        m1.tab()[idx].prefix == p, m1.tab()[idx].value == Some(v),
-        m1.tab()[idx].left == m0.tab()[idx].left, m1.tab()[idx].right == m0.tab()[idx].right,
-        m1.count as int == m0.count as int + (if m0.tab()[idx].value.is_none() { 1int } else { 0int }),
+        m1.free@ == m0.free@, // [FREE]
+        m1.tab().len() == m0.tab().len(), // [FREE,SHAPE]
+        frame_nodes(m0.tab(), m1.tab(), idx, idx, idx), // [SHAPE,C01,C18,COUNT]
+        m1.tab()[idx].prefix == p, // [C18,C01]
+        m1.tab()[idx].value == Some(v), // [C01,COUNT]
+        m1.tab()[idx].left == m0.tab()[idx].left, // [SHAPE]
+        m1.tab()[idx].right == m0.tab()[idx].right, // [SHAPE]
+        m1.count as int == m0.count as int + (if m0.tab()[idx].value.is_none() { 1int } else { 0int }), // [COUNT]
     ensures
         m1.wf_shape(), m1.wf_free(), m1.wf_count(),
         ins_content(m0, m1, p, v),
@@ -105,16 +108,16 @@ pub proof fn lemma_insert_new_common<P: Prefix, T>(m0: PrefixMap<P, T>, m1: Pref
 
 pub proof fn lemma_insert_leaf<P: Prefix, T>(m0: PrefixMap<P, T>, m1: PrefixMap<P, T>, idx: int, new: int, s: bool, p: P, v: T)
     requires
-        m0.wf(), m0.live().contains(idx),
-        !(kb(m0.tab(), idx) =~= p.bits()), pre(kb(m0.tab(), idx), p.bits()),
-        s == next_bit(kb(m0.tab(), idx), p.bits()), chd(m0.tab(), idx, s).is_none(),
-        0 <= new < m1.tab().len(), !m0.live().contains(new), m1.live() =~= m0.live().insert(new), m1.wf_free(),
-        frame_nodes(m0.tab(), m1.tab(), idx, new, new),
-        m1.tab()[idx].prefix == m0.tab()[idx].prefix, m1.tab()[idx].value == m0.tab()[idx].value,
-        is_child(m1.tab(), idx, s, new), chd(m1.tab(), idx, !s) == chd(m0.tab(), idx, !s),
-        m1.tab()[new].prefix == p, m1.tab()[new].value == Some(v),
-        m1.tab()[new].left.is_none(), m1.tab()[new].right.is_none(),
-        m1.count as int == m0.count as int + 1,
+        m0.wf(), m0.live().contains(idx), // [SHAPE,C01]
+        !(kb(m0.tab(), idx) =~= p.bits()), pre(kb(m0.tab(), idx), p.bits()), // [SHAPE,C01]
+        s == next_bit(kb(m0.tab(), idx), p.bits()), chd(m0.tab(), idx, s).is_none(), // [SHAPE,C01]
+        0 <= new < m1.tab().len(), !m0.live().contains(new), m1.live() =~= m0.live().insert(new), m1.wf_free(), // [FREE,SHAPE]
+        frame_nodes(m0.tab(), m1.tab(), idx, new, new), // [SHAPE,C01,C18,COUNT]
+        m1.tab()[idx].prefix == m0.tab()[idx].prefix, m1.tab()[idx].value == m0.tab()[idx].value, // [C18,C01,SHAPE,COUNT]
+        is_child(m1.tab(), idx, s, new), chd(m1.tab(), idx, !s) == chd(m0.tab(), idx, !s), // [SHAPE]
+        m1.tab()[new].prefix == p, m1.tab()[new].value == Some(v), // [C18,C01,SHAPE,COUNT]
+        m1.tab()[new].left.is_none(), m1.tab()[new].right.is_none(), // [SHAPE]
+        m1.count as int == m0.count as int + 1, // [COUNT]
     ensures
         m1.wf_shape(), m1.wf_count(), ins_content(m0, m1, p, v), !m0.content().dom().contains(p.bits()),
 {
@@ -130,17 +133,17 @@ pub proof fn lemma_insert_leaf<P: Prefix, T>(m0: PrefixMap<P, T>, m1: PrefixMap<
 
 pub proof fn lemma_insert_child<P: Prefix, T>(m0: PrefixMap<P, T>, m1: PrefixMap<P, T>, idx: int, new: int, s: bool, cs: bool, c: int, p: P, v: T)
     requires
-        m0.wf(), m0.live().contains(idx),
-        !(kb(m0.tab(), idx) =~= p.bits()), pre(kb(m0.tab(), idx), p.bits()),
-        s == next_bit(kb(m0.tab(), idx), p.bits()), is_child(m0.tab(), idx, s, c),
-        !pre(kb(m0.tab(), c), p.bits()), pre(p.bits(), kb(m0.tab(), c)), cs == next_bit(p.bits(), kb(m0.tab(), c)),
-        0 <= new < m1.tab().len(), !m0.live().contains(new), m1.live() =~= m0.live().insert(new), m1.wf_free(),
-        frame_nodes(m0.tab(), m1.tab(), idx, new, new),
-        m1.tab()[idx].prefix == m0.tab()[idx].prefix, m1.tab()[idx].value == m0.tab()[idx].value,
-        is_child(m1.tab(), idx, s, new), chd(m1.tab(), idx, !s) == chd(m0.tab(), idx, !s),
-        m1.tab()[new].prefix == p, m1.tab()[new].value == Some(v),
-        is_child(m1.tab(), new, cs, c), chd(m1.tab(), new, !cs).is_none(),
-        m1.count as int == m0.count as int + 1,
+        m0.wf(), m0.live().contains(idx), // [SHAPE,C01]
+        !(kb(m0.tab(), idx) =~= p.bits()), pre(kb(m0.tab(), idx), p.bits()), // [SHAPE,C01]
+        s == next_bit(kb(m0.tab(), idx), p.bits()), is_child(m0.tab(), idx, s, c), // [SHAPE,C01]
+        !pre(kb(m0.tab(), c), p.bits()), pre(p.bits(), kb(m0.tab(), c)), cs == next_bit(p.bits(), kb(m0.tab(), c)), // [SHAPE,C01]
+        0 <= new < m1.tab().len(), !m0.live().contains(new), m1.live() =~= m0.live().insert(new), m1.wf_free(), // [FREE,SHAPE]
+        frame_nodes(m0.tab(), m1.tab(), idx, new, new), // [SHAPE,C01,C18,COUNT]
+        m1.tab()[idx].prefix == m0.tab()[idx].prefix, m1.tab()[idx].value == m0.tab()[idx].value, // [C18,C01,SHAPE,COUNT]
+        is_child(m1.tab(), idx, s, new), chd(m1.tab(), idx, !s) == chd(m0.tab(), idx, !s), // [SHAPE]
+        m1.tab()[new].prefix == p, m1.tab()[new].value == Some(v), // [C18,C01,SHAPE,COUNT]
+        is_child(m1.tab(), new, cs, c), chd(m1.tab(), new, !cs).is_none(), // [SHAPE]
+        m1.count as int == m0.count as int + 1, // [COUNT]
     ensures
         m1.wf_shape(), m1.wf_count(), ins_content(m0, m1, p, v), !m0.content().dom().contains(p.bits()),
 {
@@ -158,25 +161,25 @@ pub proof fn lemma_insert_child<P: Prefix, T>(m0: PrefixMap<P, T>, m1: PrefixMap
 
 pub proof fn lemma_insert_branch<P: Prefix, T>(m0: PrefixMap<P, T>, m1: PrefixMap<P, T>, idx: int, br: int, new: int, s: bool, ps: bool, c: int, bp: P, p: P, v: T)
     requires
-        m0.wf(), m0.live().contains(idx),
-        !(kb(m0.tab(), idx) =~= p.bits()), pre(kb(m0.tab(), idx), p.bits()),
-        s == next_bit(kb(m0.tab(), idx), p.bits()), is_child(m0.tab(), idx, s, c),
-        !pre(kb(m0.tab(), c), p.bits()), !pre(p.bits(), kb(m0.tab(), c)),
-        pre(bp.bits(), p.bits()), pre(bp.bits(), kb(m0.tab(), c)),
-        bp.bits().len() < p.bits().len(), bp.bits().len() < kb(m0.tab(), c).len(),
-        p.bits()[bp.bits().len() as int] != kb(m0.tab(), c)[bp.bits().len() as int],
-        ps == next_bit(bp.bits(), p.bits()),
-        0 <= new < m1.tab().len(), 0 <= br < m1.tab().len(), br != new,
-        !m0.live().contains(new), !m0.live().contains(br),
-        m1.live() =~= m0.live().insert(br).insert(new), m1.wf_free(),
-        frame_nodes(m0.tab(), m1.tab(), idx, new, br),
-        m1.tab()[idx].prefix == m0.tab()[idx].prefix, m1.tab()[idx].value == m0.tab()[idx].value,
-        is_child(m1.tab(), idx, s, br), chd(m1.tab(), idx, !s) == chd(m0.tab(), idx, !s),
-        m1.tab()[br].prefix == bp, m1.tab()[br].value.is_none(),
-        is_child(m1.tab(), br, ps, new), is_child(m1.tab(), br, !ps, c),
-        m1.tab()[new].prefix == p, m1.tab()[new].value == Some(v),
-        m1.tab()[new].left.is_none(), m1.tab()[new].right.is_none(),
-        m1.count as int == m0.count as int + 1,
+        m0.wf(), m0.live().contains(idx), // [SHAPE,C01]
+        !(kb(m0.tab(), idx) =~= p.bits()), pre(kb(m0.tab(), idx), p.bits()), // [SHAPE,C01]
+        s == next_bit(kb(m0.tab(), idx), p.bits()), is_child(m0.tab(), idx, s, c), // [SHAPE,C01]
+        !pre(kb(m0.tab(), c), p.bits()), !pre(p.bits(), kb(m0.tab(), c)), // [SHAPE,C01]
+        pre(bp.bits(), p.bits()), pre(bp.bits(), kb(m0.tab(), c)), // [SHAPE,C01]
+        bp.bits().len() < p.bits().len(), bp.bits().len() < kb(m0.tab(), c).len(), // [SHAPE,C01]
+        p.bits()[bp.bits().len() as int] != kb(m0.tab(), c)[bp.bits().len() as int], // [SHAPE,C01]
+        ps == next_bit(bp.bits(), p.bits()), // [SHAPE,C01]
+        0 <= new < m1.tab().len(), 0 <= br < m1.tab().len(), br != new, // [FREE,SHAPE]
+        !m0.live().contains(new), !m0.live().contains(br), // [FREE,SHAPE]
+        m1.live() =~= m0.live().insert(br).insert(new), m1.wf_free(), // [FREE,SHAPE]
+        frame_nodes(m0.tab(), m1.tab(), idx, new, br), // [SHAPE,C01,C18,COUNT]
+        m1.tab()[idx].prefix == m0.tab()[idx].prefix, m1.tab()[idx].value == m0.tab()[idx].value, // [C18,C01,SHAPE,COUNT]
+        is_child(m1.tab(), idx, s, br), chd(m1.tab(), idx, !s) == chd(m0.tab(), idx, !s), // [SHAPE]
+        m1.tab()[br].prefix == bp, m1.tab()[br].value.is_none(), // [SHAPE,COUNT,C01]
+        is_child(m1.tab(), br, ps, new), is_child(m1.tab(), br, !ps, c), // [SHAPE]
+        m1.tab()[new].prefix == p, m1.tab()[new].value == Some(v), // [C18,C01,SHAPE,COUNT]
+        m1.tab()[new].left.is_none(), m1.tab()[new].right.is_none(), // [SHAPE]
+        m1.count as int == m0.count as int + 1, // [COUNT]
     ensures
         m1.wf_shape(), m1.wf_count(), ins_content(m0, m1, p, v), !m0.content().dom().contains(p.bits()),
 {
